@@ -157,6 +157,8 @@ func c16Case(c *lib.Ctx, idx uint64) {
 		logCalls int
 		ct       *lib.Content
 	}
+	// one read chunking per case, the same for all 8 runs (bytes consumed are compared between them)
+	chunker := []lib.Chunker{{Kind: "whole"}, {Kind: "one"}, {Kind: "greedy"}, {Kind: "fixed", Size: 7}}[idx/68%4]
 	var all [8]obs
 	for mask := 0; mask < 8; mask++ {
 		var opts []fit.DecodeOption
@@ -170,7 +172,7 @@ func c16Case(c *lib.Ctx, idx uint64) {
 		if mask&4 != 0 {
 			opts = append(opts, fit.WithUnknownMessages())
 		}
-		r := lib.NewReader(b, lib.Chunker{Kind: "whole"})
+		r := lib.NewReader(b, chunker)
 		var f *fit.File
 		var derr error
 		out := lib.Guard(func() { f, derr = fit.Decode(r, opts...) })
